@@ -73,6 +73,10 @@ def classify(sn, client, leaked=()):
             # a promised stream that never became active (uncounted, no handle): still queued on its parent, or already being
             # cancelled because the parent's handle went away (RST_STREAM owed) - KF-C18-1 either way: their number has no cap
             cl["reserved"] += 1
+        elif s["is_pending_window_update"] and not (s["is_pending_send"] or s["is_pending_send_capacity"] or s["is_pending_open"]):
+            # queued for a WINDOW_UPDATE by the application's own release_capacity call and abandoned before the connection task
+            # ran again: one per such call, gone at the next poll (app-attributable, like a held record)
+            cl["held"] += 1
         elif s["is_pending_send"] or s["is_pending_send_capacity"] or s["is_pending_open"] or s["is_pending_window_update"]:
             cl["queued"] += 1
         else:
@@ -348,13 +352,59 @@ def corpus_scenarios():
     return out
 
 
+def tiny_frame_ledger(sc, budget=25600, threshold=256):
+    """Buffered tiny DATA frames are bounded by the DATA-frame budget (default 25600 = DEFAULT_DATA_FRAME_BUDGET; a non-final
+    frame of 0 < len < 256 octets costs 256 - len while it is buffered): counting ONLY frames fed on streams whose body the
+    application never read (no poll_data on any handle of that stream), once their cost exceeds the budget and the endpoint has
+    demonstrably processed them (it answered a PING fed later), a GOAWAY(ENHANCE_YOUR_CALM) must be on the wire - whatever the
+    application reads on OTHER streams meanwhile."""
+    h_sid, read_sids = {}, set()
+    for st in sc["trace"]:
+        r = st["res"]
+        if isinstance(r, dict) and "h" in r and "sid" in r:
+            h_sid[r["h"]] = r["sid"]
+        if st["op"].get("op") == "poll_data" and st["op"].get("h") in h_sid:
+            read_sids.add(h_sid[st["op"]["h"]])
+    cost, over_at, goaway, alive = 0, None, False, True
+    for st in sc["trace"]:
+        op = st["op"]
+        o = op.get("op")
+        if o in ("eof", "read_fail", "drop_conn", "abrupt_shutdown", "graceful_shutdown") or (o == "write_mode" and op.get("mode") in ("fail", "zero")):
+            alive = False
+        w = op.get("what") if o == "peer" else None
+        if isinstance(w, dict):
+            if "chaos" in w or w.get("t") == "GOAWAY":
+                alive = False
+            if w.get("t") == "DATA" and not w.get("eos") and w.get("pad") is None and 0 < w.get("len", 0) < threshold and w.get("sid") not in read_sids:
+                cost += threshold - w["len"]
+                if cost > budget + threshold and over_at is None and alive:
+                    over_at = st["i"]
+            if w.get("t") == "RST_STREAM" and w.get("sid") not in read_sids:
+                return None        # the peer reset an unread stream: its buffered frames are released
+        for f in st["out"]:
+            if f["t"] == "GOAWAY":
+                goaway = True
+            if f["t"] == "RST_STREAM" and f.get("sid") not in read_sids:
+                return None        # the endpoint reset an unread stream
+        if isinstance(st["res"], str) and st["res"].startswith(("E(", "Ready")) and o in ("conn_poll", "poll_accept"):
+            alive = alive and goaway
+    if over_at is None or goaway or not sc.get("settled", True):
+        return None
+    # processed? a conn poll after over_at that left nothing unread in the transport, with writes not blocked at the end
+    later = [st for st in sc["trace"] if st["i"] > over_at and st["op"].get("op") in ("conn_poll", "poll_accept") and st.get("io", {}).get("inbound") == 0]
+    if len(later) < 2 or not alive:
+        return None
+    return {"why": "more tiny non-final DATA frames are buffered on unread streams than the DATA-frame budget pays for, and no GOAWAY was written",
+            "cost_of_parked_frames": cost, "budget": budget, "exceeded_at_step": over_at}
+
+
 def oracle_bounds(rep, scs):
     n_viol = 0
     nontriv = 0
     maxima = {}
     for sc in scs:
         v, known, mx = abuse_oracle(sc)
-        v = v or refusal_oracle(sc)
+        v = v or refusal_oracle(sc) or tiny_frame_ledger(sc)
         for k in known:
             rep.known(k)
         for k, x in mx.items():
